@@ -92,7 +92,7 @@ def main():
                     print(tag, "PATCH FAILED", pr.stderr[-200:])
                     continue
                 for pid in meta.get("run_checks", [meta["property"]]):
-                    r = run_check(pid, d, runs or meta.get("runs", 0) or {"C19": 600, "C14": 500, "C12": 600, "C03": 800, "C02": 1500, "C09": 30000, "C10": 30000}.get(pid, 4000), tag)
+                    r = run_check(pid, d, runs or meta.get("runs", 0) or {"C19": 600, "C14": 500, "C12": 1500, "C03": 800, "C02": 1500, "C09": 30000, "C10": 30000}.get(pid, 4000), tag)
                     results[f"{tag}@{pid}"] = r
                     print(f"{tag + '@' + pid:55s} {'KILLED' if r['violation'] else ('HARNESS' if r['harness_error'] else 'missed')}  {r['wall_s']}s  {r['classes'][:110]}")
             finally:
